@@ -17,6 +17,8 @@ CONSTANTS
   TxnBeforeGate = FALSE
   NestedCloseClearsMark = FALSE
   ReadNotCounted = FALSE
+  SqueezedFits = TRUE
+  ReopenClampsMap = FALSE
   BatchMax = 1
   MaxOps = 14
   WithReads = FALSE
